@@ -336,6 +336,7 @@ def main(tier):
     import c13
     c13.rule_witness(ck)        # value-type trait identities (shared with C13)
     c13.rule_view(ck, units)   # scalar vectors viewed as block vectors keep their own precision (shared with C13)
+    c13.rule_view_extent(ck, units)
     import c10
     c10.rule_D(ck, units)      # per-thread partial sums of inner_product are initialised for every slot (shared with C10)
     finalize_keys(ck)
